@@ -43,7 +43,10 @@ def gen_script(rng, tier, focus=None):
             steps.append(['late', rng.randrange(neps)])      # answer everything held, however old
     steps.append(['release', 0, 'fifo'])
     steps.append(['adv', 700])
-    return {'stack': stack, 'neps': neps, 'open_delay': open_delay, 'steps': steps}
+    pool = None
+    if stack == 'thrift' and rng.random() < 0.5:
+        pool = rng.choice([[1, 1, 100], [0, 2, 1], [1, 2, 2], [1, 1, 0]])      # (min, max, max_queue): saturable pools
+    return {'stack': stack, 'neps': neps, 'open_delay': open_delay, 'pool': pool, 'steps': steps}
 
 
 def shrink(script):
@@ -238,7 +241,15 @@ def run_script(script, comp='e2e'):
             from scales.thrift import Thrift as B
         else:
             from scales.thriftmux import ThriftMux as B
-        client = B.NewBuilder(Hello.Iface).SetUri(uri).SetTimeout(10).SetOpenTimeout(0).Build()
+        builder = B.NewBuilder(Hello.Iface)
+        if script.get('pool') and stack == 'thrift':
+            from scales.constants import SinkRole
+            from scales.pool import WatermarkPoolSink
+            mn, mx, mq = script['pool']
+            builder = builder.ReplaceRole(SinkRole.Pool, WatermarkPoolSink.Builder(
+                min_watermark=mn, max_watermark=mx, max_queue_len=mq))
+            tags.add('small-pool')
+        client = builder.SetUri(uri).SetTimeout(10).SetOpenTimeout(0).Build()
         disp = client._dispatcher
         dispatch.AsyncResult = CountingAR
         opened = [False]
